@@ -235,6 +235,27 @@ func (u *Unit) call(fr *Frame, st *State, c *ssa.CallCommon, instr ssa.Value, po
 		}
 		return u.havocCall(st, c, "interface call "+name)
 	}
+	// a call through a function value held in a named variable (a captured variable
+	// or a local) uses the extern contract `funcvalue:<name>` if one is declared: a
+	// type-level assumption about whatever function the variable holds
+	if uo, ok := c.Value.(*ssa.UnOp); ok && !c.IsInvoke() {
+		vn := ""
+		switch x := uo.X.(type) {
+		case *ssa.FreeVar:
+			vn = x.Name()
+		case *ssa.Alloc:
+			vn = x.Comment
+		}
+		if vn != "" {
+			if con := u.eng.externs["funcvalue:"+vn]; con != nil {
+				var args []Val
+				for _, a := range c.Args {
+					args = append(args, u.value(fr, a))
+				}
+				return u.applyContract(fr, st, con, nil, args, pos, "funcvalue:"+vn)
+			}
+		}
+	}
 	// a call through a package-level function variable (an injected hook such as
 	// jsonopts.JoinUnknownOption) uses the extern contract declared under that name
 	if uo, ok := c.Value.(*ssa.UnOp); ok {
